@@ -205,6 +205,14 @@ Example C11_ex_roundtrip :
                   pars h' 3 = [5; 4] /\ node_name (getn h' 3) = Some "3".
 Proof. exact ex_roundtrip. Qed.
 
+(* a multi-objective individual with a crossover parent operator over that graph *)
+Example C11_ex_individual :
+  exists j h' l, fst (save_individual ex_heap ex_ind) = Ok j /\ load_individual ex_heap j = Ok (h', l) /\
+                 fst (save_individual h' l) = Ok j /\
+                 cmp_raises (i_fitness l) (i_fitness ex_ind) = false /\ hash_raises (i_fitness l) = false /\
+                 option_map po_parents (i_pop l) = Some [PUid "p1"; PUid "p2"].
+Proof. exact ex_individual_roundtrip. Qed.
+
 Example C11_ex_ops :
   ops_ok (ex_heap, nodes ex_graph) [OConnect 1 0; ODelete 2 RAll; ODisconnect 1 0] = true /\
   members_uniq ex_heap ex_graph /\
